@@ -47,9 +47,9 @@ from rv.ref import c31_lfsr as L
 PROPERTY = "C33"
 CASES = {"quick": 224, "thorough": 3200}
 TIMEOUT = {"quick": 900, "thorough": 4 * 3600}
-RULE = ("case = harness (phy: link-stream script of 1.5k-6k words, 12 % long sessions of 20k-40k words, 12 % overload sessions; "
-        "link: bring-up timing script) x scrambling on/off; non-trivial (phy) = at least two SKP words, one burst >= 89 words "
-        "and one permitted idle run of exactly one word; distinct = hash of the full script")
+RULE = ("case = harness (phy: link-stream script of 1.5k-6k words, 9 % mostly-idle sessions of 8k-14k words, 10 % overload sessions; "
+        "link: bring-up timing script) x scrambling on/off; non-trivial = at least two SKP words inserted (phy) / equaliser "
+        "training reached (link); distinct = hash of the full script")
 REQUIRED_BINS = ["mode_phy", "mode_link", "scrambling_on", "scrambling_off",
                  "skp_after_burst_ge_177_words", "skp_in_single_idle_word", "back_to_back_skp_words", "backlog_ge_4_sets",
                  "backlog_kept_across_burst", "idle_not_permitted_while_owed", "zero_data_word_in_burst_while_owed",
@@ -587,7 +587,6 @@ def judge_phy(res, script, accepted, outs, st, scrambling):
             prev_kind = "idle" if permitted else "idle_np"
         prev_skp = False
     res.nontrivial = skp_total >= 2
-    res.event("skp_words_per_case_max", 0)
 
 
 def _is_permitted(w):
@@ -665,6 +664,8 @@ class LinkMonitor:
                 res.event("link_arbiter_idle_cycles")
             else:
                 res.event("link_busy_cycles")
+            if not idle and not sv:
+                res.bin("link_busy_cycle_without_valid_word")
             if self.prev_idle == 1 and not idle:
                 res.bin("link_idle_to_busy")
             if self.prev_idle == 0 and idle:
@@ -927,7 +928,10 @@ def run_case(rng, tier, res):
     if not L.selftest():
         raise RuntimeError("reference LFSR self-test failed")
     r = rng.random()
-    if r < 0.07:
+    if tier == "thorough" and r < 0.004:
+        res.bin("mode_link_full")
+        run_link(rng, tier, res, full=True)
+    elif r < 0.07:
         res.bin("mode_link")
         run_link(rng, tier, res, full=False)
     else:
